@@ -283,6 +283,29 @@ def history_stream(ctx):
     import re
     for (case, il), mo in zip(pend, ctx.model.ask(lines)):
         ctx.compare('kaisa-queries-history', case, mo, il)
+    # several assignments ALIVE at once in one process (two preconditioners, e.g. actor and critic) with the same layer
+    # names but different costs / worker counts: what one of them answers does not change when another one is built
+    for _ in range(ctx.budget(12, 120)):
+        w = rng.choice([4, 6, 8, 12])
+        names = gen.gen_work(rng, nlayers=rng.choice([2, 4, 7]))
+        alive = []
+        for j in range(rng.randrange(2, 4)):
+            k = rng.choice(gen.divisors(w))
+            work = {l: {f: rng.randrange(1, 50) for f in fs} for l, fs in names.items()}
+            loc = rng.randrange(w)
+            a, _, _ = build(w, k, loc, rng.random() < 0.5, work)
+            alive.append((a, loc, work, w, k, impl_line(a, loc, work, w, k)[0]))
+        for a, loc, work, w_, k, first in alive:
+            try:
+                again = impl_line(a, loc, work, w_, k)[0]
+            except Exception as e:  # noqa: BLE001
+                again = f'query raised {type(e).__name__}: {e}'
+            if again != first:
+                ctx.fail('an assignment answers differently after another KAISAAssignment was constructed in the same process',
+                         {'w': w_, 'k': k, 'loc': loc, 'work': work, 'before': first[:200], 'after': again[:200]}, 'alive-interference')
+                break
+        ctx.evaluations += 1
+        ctx.count('assignments-alive-together')
 
 
 def interpreter_stream(ctx):
